@@ -3,6 +3,7 @@
 package c09
 
 import (
+	"bytes"
 	"fmt"
 	"strconv"
 	"strings"
@@ -186,12 +187,34 @@ type realRunner struct {
 	c    cache.Cache
 	conf Case
 	bad  string
+	// passed: per key, the buffer given to the latest Set of that key (small
+	// values are given to the cache in a buffer of their own).
+	passed map[string][]byte
 }
 
 func (r *realRunner) do(o Op) string {
 	switch o.Kind {
 	case "set":
-		return fmt.Sprintf("set=%v", r.c.Set([]byte(o.Key), o.value()))
+		v := o.value()
+		if o.Big > 0 {
+			return fmt.Sprintf("set=%v", r.c.Set([]byte(o.Key), v))
+		}
+		// The cache keeps the slice it is given.  Once a Set has replaced the
+		// entry of a key, the buffer given to the previous Set of that key is
+		// the caller's again (it was either replaced just now or never
+		// stored): the caller reuses it, which must not show through the cache.
+		buf := bytes.Clone(v)
+		replaced := r.c.Set([]byte(o.Key), buf)
+		if r.passed == nil {
+			r.passed = map[string][]byte{}
+		}
+		if old := r.passed[o.Key]; replaced && len(old) > 0 {
+			for i := range old {
+				old[i] = 0xEE
+			}
+		}
+		r.passed[o.Key] = buf
+		return fmt.Sprintf("set=%v", replaced)
 	case "get":
 		return "get=" + fmtVal(r.c.Get([]byte(o.Key)))
 	case "del":
@@ -395,7 +418,8 @@ var opGen = rapid.Custom(func(t *rapid.T) Op {
 	return Op{
 		Kind: rapid.SampledFrom([]string{"set", "set", "set", "set", "set", "set", "set", "set", "get", "get", "get", "get", "del", "del", "clear", "stats"}).Draw(t, "kind"),
 		Key:  rapid.SampledFrom(keys).Draw(t, "key"),
-		Val:  rapid.OneOf(rapid.SliceOfN(rapid.Byte(), 0, 6), rapid.Just([]byte(nil)), rapid.Just([]byte{})).Draw(t, "val"),
+		// (a small palette makes successive Sets of one key store equal bytes from different buffers)
+		Val: rapid.OneOf(rapid.SliceOfN(rapid.Byte(), 0, 6), rapid.Just([]byte(nil)), rapid.Just([]byte{}), rapid.SampledFrom([][]byte{[]byte("v"), []byte("same"), []byte("vv")})).Draw(t, "val"),
 	}
 })
 
